@@ -120,7 +120,19 @@ func (c *ChecksumChecker) checksum(t *ast.Task) (string, error) {
 }
 
 func (checker *ChecksumChecker) checksumFilePath(t *ast.Task) string {
-	return filepath.Join(checker.tempDir, "checksum", normalizeFilename(t.Name()))
+	return filepath.Join(checker.tempDir, "checksum", stateFilename(t.Name()))
+}
+
+// stateFilename is the name of the file that keeps the state of the task with
+// the given name. Names that normalizeFilename changes get a hash of the
+// original name appended, so that two different names (a:b, a.b and a-b, or
+// labels that differ only in punctuation) never share one file.
+func stateFilename(name string) string {
+	normalized := normalizeFilename(name)
+	if normalized == name {
+		return normalized
+	}
+	return fmt.Sprintf("%s-%016x", normalized, xxh3.HashString(name))
 }
 
 var checksumFilenameRegexp = regexp.MustCompile("[^A-z0-9]")
